@@ -3,6 +3,7 @@ package main
 // Symbolic execution of SSA function bodies into verification conditions.
 
 import (
+	"os"
 	"fmt"
 	"go/constant"
 	"go/token"
@@ -168,6 +169,19 @@ func (e *Engine) splitGoal(goal *Term) []goalPiece {
 					rec(h, tb.Not(a), depth+1)
 				}
 				return
+			}
+			out = append(out, goalPiece{h, g})
+		case "=":
+			// (ite c a b) = d  splits into  c => a = d  and  not c => b = d  (one level; helps the solvers a lot)
+			if g.Args[0].Sort != BoolSort && depth < 6 && os.Getenv("GOVC_NO_ITESPLIT") == "" {
+				for k := 0; k < 2; k++ {
+					x, d := g.Args[k], g.Args[1-k]
+					if x.Op == "ite" && !x.hasBV && d.Op != "ite" {
+						rec(append(append([]*Term{}, h...), x.Args[0]), tb.Eq(x.Args[1], d), 9)
+						rec(append(append([]*Term{}, h...), tb.Not(x.Args[0])), tb.Eq(x.Args[2], d), 9)
+						return
+					}
+				}
 			}
 			out = append(out, goalPiece{h, g})
 		default:
